@@ -58,7 +58,7 @@ func cfgLattice() (hbs []time.Duration, f func(hb time.Duration) (ttls, vals, gr
 
 func runCfg(rep *Report, rng *rand.Rand, n int, exhaustive bool) error {
 	hbs, f := cfgLattice()
-	strs := []string{"", "x", "bucket-1"}
+	strs := []string{"", "x", "bucket-1", " ", "\t", "\n ", "a b", "é"}
 	ints := []int{-2, -1, 0, 1, 3, 100}
 	var cases []cfgCase
 	if exhaustive {
